@@ -81,10 +81,15 @@ def main():
                 status = "silent" if not fired else "FALSE ALARM"
                 bad += 1 if fired else 0
             else:
-                exp = meta.get("expect", [meta["property"]])
+                exp = meta.get("expect") or [meta["property"]]
                 missing = [p for p in exp if p not in fired]
-                status = "caught" if not missing else "MISSED by %s" % ",".join(missing)
-                if missing and not meta.get("out_of_reach"):
+                if not fired:
+                    status = "MISSED by every check" + (" (recorded as out of reach)" if meta.get("out_of_reach") else "")
+                elif missing:
+                    status = "MISSED by %s (reported by %s)" % (",".join(missing), ",".join(sorted(fired)))
+                else:
+                    status = "caught"
+                if (missing or not fired) and not meta.get("out_of_reach"):
                     bad += 1
             print("%-12s %-8s %s" % (name, meta["property"], status))
             for pid, keys in fired.items():
